@@ -289,9 +289,9 @@ def evaluate(ck, exe, results):
                              {"module": md["file"], "module_text": module_text(md["file"])},
                              "scan invariant assumed by the C17 theorems fails on %s: %s" % (md["file"], b))
             mh = md["head"][0].split(" ")
-            if int(mh[7]) > 1:
+            if int(mh[8]) > 1:
                 bump("modules_multi_sequence")
-            if int(mh[4]):
+            if int(mh[5]):
                 bump("modules_marker")
             for c in md["cases"]:
                 if "frame" not in c:
